@@ -346,6 +346,7 @@ pub fn run_c07(ctx: &Ctx) -> Report {
     rep.add_space("E4.inplace", json!({"languages": sl.len(), "scripts": ss.len(), "regions": sr.len(), "variant_lists": nv, "extension_sets": ne, "cases": n,
         "what": "LanguageIdentifier::maximize and Locale.id.maximize with variants and extensions attached"}), &st2);
     rep.collector = coll;
+    run_c07_domains(ctx, &mut rep);
     rep.distinct_nontrivial = st.local.nontrivial;
     rep.samples = st.local.samples_json(8);
     rep.extra.insert("maximize_results".into(), json!({"none": st.local.counters[0], "some": st.local.counters[1]}));
@@ -757,6 +758,92 @@ pub fn run_unknown_domains(ctx: &Ctx, u: &Universe, which: Which, sub: &'static 
     });
     rep.add_space("E4.all_regions", json!({"kind": "every 2-letter and 3-digit region subtag (1 676) that the CLDR data do not know x 6 languages x 6 scripts x {free function, method}", "unknown_candidates": st.local.nontrivial}), &st);
     rep.collector = coll;
+}
+
+/// C07's algebraic laws on one triple given as library values (no universe, no data)
+pub fn check_c07_laws_l(x: LTriple, l: &mut Local, coll: &Collector) {
+    let desc = format!("law7:{}", show_l(&x));
+    let push = |sub: &'static str, class: &str, e: String, o: String| {
+        coll.push(0, Violation { sub, class: class.to_string(), case: Case::Text(desc.clone()), expected: e, observed: o });
+    };
+    for method in [false, true] {
+        l.counters[3] += 1;
+        let r = match apply(Which::Max, method, x) {
+            Ok(r) => r,
+            Err(p) => {
+                push("c07.panic", "maximize panics", "a result".into(), p);
+                return;
+            }
+        };
+        let Some(o) = r else { continue };
+        l.nontrivial += 1;
+        let keeps = (x.0.is_empty() || o.0 == x.0) && (x.1.is_none() || o.1 == x.1) && (x.2.is_none() || o.2 == x.2);
+        if !keeps {
+            push("c07.keeps", "complete subtag domain: maximize changes a given subtag", format!("the given subtags of {} kept", show_l(&x)), show_l(&o));
+        }
+        if o.0.is_empty() || o.1.is_none() || o.2.is_none() {
+            push("c07.fills", "complete subtag domain: maximize reports a change but leaves a subtag empty", "all three present".into(), show_l(&o));
+        }
+        if o == x {
+            push("c07.changed", "complete subtag domain: maximize reports a change but returns the input".into(), "None".into(), show_l(&o));
+        }
+        match apply(Which::Max, method, o) {
+            Ok(None) => {}
+            other => push("c07.idempotent", "complete subtag domain: maximizing a maximized identifier changes it", "None".into(), format!("{:?}", other.map(|x| x.map(|t| show_l(&t))))),
+        }
+    }
+}
+
+/// every 2- and 3-letter language, every 4-letter script [quick: a stride], every region, each in
+/// the 6 x 7 contexts of the other two subtags: the laws of C07 (no reference data involved)
+pub fn run_c07_domains(ctx: &Ctx, rep: &mut Report) {
+    let coll = std::mem::take(&mut rep.collector);
+    let quick = ctx.quick();
+    let n_lang = 26u64 * 26 + 26 * 26 * 26;
+    let n_script = 26u64.pow(4);
+    let n_region = 676u64 + 1000;
+    let st = par_range(ctx, "E4.law_domains", n_lang + n_script + n_region, 256, &|idx, l| {
+        if idx < n_lang {
+            let s = if idx < 676 { nth_letters(idx, 2, false, false) } else { nth_letters(idx - 676, 3, false, false) };
+            for sc in CTX_SCRIPTS {
+                for r in CTX_REGIONS {
+                    check_c07_laws_l((p_lang(&s), p_script(sc), p_region(r)), l, &coll);
+                }
+            }
+        } else if idx < n_lang + n_script {
+            let k = idx - n_lang;
+            let first = k / 26u64.pow(3);
+            if quick && first != 16 && first != 25 && k % 7 != 0 {
+                return;
+            }
+            let s = nth_letters(k, 4, true, false);
+            for la in CTX_LANGS {
+                for r in CTX_REGIONS {
+                    check_c07_laws_l((p_lang(la), p_script(&s), p_region(r)), l, &coll);
+                }
+            }
+        } else {
+            let k = idx - n_lang - n_script;
+            let s = if k < 676 { nth_letters(k, 2, false, true) } else { format!("{:03}", k - 676) };
+            for la in CTX_LANGS {
+                for sc in CTX_SCRIPTS {
+                    check_c07_laws_l((p_lang(la), p_script(sc), p_region(&s)), l, &coll);
+                }
+            }
+        }
+    });
+    let mut stx = st;
+    stx.inputs = stx.local.counters[3];
+    rep.add_space("E4.law_domains", json!({"kind": "complete subtag domains: every 2- and 3-letter language (18 252), every 4-letter script [quick: the Q... and Z... blocks and every 7th of the rest], every 2-letter and 3-digit region (1 676), each in the 6 x 7 contexts of the other two subtags, through the free function and the method: given subtags kept, all three present, a reported change is a change, idempotence",
+        "calls": stx.local.counters[3], "changed": stx.local.nontrivial}), &stx);
+    rep.collector = coll;
+}
+
+pub fn replay_law7(text: &str, coll: &Collector) {
+    let Some(rest) = text.strip_prefix("law7:") else { return };
+    let Ok(li) = rest.parse::<LanguageIdentifier>() else { return };
+    let mut l = Local::new();
+    check_c07_laws_l((li.language, li.script, li.region), &mut l, coll);
 }
 
 pub fn replay_unknown(ctx: &Ctx, sub: &'static str, text: &str, coll: &Collector) {
